@@ -242,7 +242,7 @@ func c10readBam(b []byte, want []string, hdr string, rd int) (o c10obs) {
 		}
 	}()
 	o.EOF = c10hasEOF(b)
-	r, err := bam.NewReader(bytes.NewReader(b), rd)
+	r, err := bam.NewReader(sourceFor(b), rd)
 	n := 0
 	o.Pre = true
 	if err == nil {
